@@ -170,6 +170,13 @@ def argErrors (cfg : Cfg) (s : Schema) (ty : String) (fd : FieldDef) (args : Lis
   let nulls := args.filter (fun a => a.isNull && fd.args.any (fun d => d.name == a.name && d.required))
   (sortErrs, nulls.map (fun a => ⟨[.key a.name], .leaf⟩) ++ missing.map (fun d => ⟨[], .required d.name⟩))
 
+/-- what a node answers for a field (value and number of errors): the only way the walk reads field values.
+A resolver strategy is a representation of this function (C02). -/
+def fetch (g : Graph) (node : Nat) (name : String) : FieldRes :=
+  match g[node]? with
+  | some n => (match n.fields.find? (fun p => p.1 == name) with | some p => p.2 | none => { val := .nil })
+  | none => { val := .nil }
+
 /-- does the Go type of `node` bind to object type `member`?  (by name: `metaCheck` without @go) -/
 def bindsTo (g : Graph) (node : Nat) (member : String) : Bool :=
   match g[node]? with
@@ -239,9 +246,7 @@ def rSel (env : Env) (node : Nat) (ty : String) (d : Nat) (res : List (String ×
         -- no call; attr is nil, so the key is set to null
         (setKey res key .null, { errs := skipErrs ++ prefixErrs (.key key) formErrs })
       else
-        let fr : FieldRes := match env.graph[node]? with
-          | some n => (match n.fields.find? (fun p => p.1 == name) with | some p => p.2 | none => { val := .nil })
-          | none => { val := .nil }
+        let fr : FieldRes := fetch env.graph node name
         let call : Call := ⟨node, name⟩
         let resolverErrs : List Err := List.replicate fr.errs ⟨[], .resolver⟩
         let (fv, acc) := complete env.schema env.graph (fun n t d' => if sels.isEmpty then (.obj [], { errs := [⟨[], .noSelection⟩] }) else let r := rSels env n t d' [] sels; (.obj r.1, r.2)) fd.type fr.val d
